@@ -196,4 +196,3 @@ func (w *World) Close() {
 	}
 	_ = os.RemoveAll(w.Dir)
 }
-
